@@ -358,6 +358,7 @@ def check_C11(run):
     if not prepare(run):
         return
     C.proofs_step(run, 'C11')
+    doer_model_stream(run)
     general_l2(run)
     consts = run.extract_status.get('constants', {})
     cfg = tuple(consts.get(k) for k in ('firstChunk', 'chunkGrowth', 'maxChunk', 'smallBuf'))
@@ -1529,6 +1530,12 @@ def gen_mixed(rng, n, faults=True):
     return [l2.gen_scenario(rng, faults=faults) for _ in range(n)]
 
 
+def doer_model_stream(run, n=None):
+    """the shared L3 stream: the doer / file-system model against the real doer (see fsx.py, props2.fsx_stream)"""
+    from .props2 import fsx_stream
+    return fsx_stream(run, n or (150 if run.tier != 'thorough' else 3000))
+
+
 GENERIC_L2_ORACLES = None
 
 
@@ -1569,6 +1576,7 @@ def check_C02(run):
                        'oracle = whitelist on the source trace, CreateRootAncestors only to the destination, at most once, never in a dry run; '
                        'L4: the CLI on real trees whose destination contains symlinks into populated decoy directories, snapshot of source + decoys + sandbox before/after; '
                        'non-trivial = the run sent at least one mutating command or ended in an error; distinct by request line')
+    doer_model_stream(run)
     general_l2(run)
     scs = corpus_l2('C02') + gen_mixed(rng, 2500 if not thorough else 25000)
     # deletions that fail: the barrier after the delete phase
@@ -1761,6 +1769,7 @@ def check_C07(run):
     if not prepare(run, need_cli=True):
         return
     C.proofs_step(run, 'C07')
+    doer_model_stream(run)
     general_l2(run)
     rng = run.rng
     run.cov['rule'] = ('L2: for scenarios with a non-empty plan, an error reply injected at every mutating destination command index k (the boss sees it at whatever poll the real timing gives; '
@@ -1861,6 +1870,7 @@ def check_C08(run):
     if not prepare(run, need_cli=True):
         return
     C.proofs_step(run, 'C08')
+    doer_model_stream(run)
     rng = run.rng
     consts = run.extract_status.get('constants', {})
     run.cov['rule'] = ('L3: the real doer receives multi-chunk files under RLIMIT_FSIZE (SIGXFSZ ignored) so that the write of a chosen chunk fails with EFBIG while all later chunks are already queued; '
@@ -2683,6 +2693,7 @@ def check_C01(run):
                        'and spec files with several syncs; oracle: independent snapshot comparison incl. filter-excluded entries untouched; forbidden slash combinations: both sides untouched; '
                        'non-trivial = exit 0 with at least one change made; distinct by case')
     try:
+        doer_model_stream(run)
         general_l2(run)
         # ---- L2
         scs = corpus_l2('C01')
